@@ -36,12 +36,14 @@ CLAIMED = {
         note="Partial: no-panic/no-hang is tested, not proved; the MaxHTTPBodySize bound is checked by the C07 harness on the real processors. Trusted: as C06.",
         design="4/C08"),
     "C09": dict(
-        technique="Coq model of the response writer (all coalescing branches) + differential run of the extracted model; theorems on Write results; net/http as independent decoder oracle",
-        text="coq/httpresp: nbhttp/response.go (as repaired) as a state machine over handler operations; theorems: every successful Write reports exactly len(data), "
-             "a refused Write (Content-Length exceeded) puts nothing on the wire. The decoding claim (wire = one well-formed response with the handler's status, headers, "
-             "trailers and body) is decided on every run by the implementation-side oracle (net/http decodes the recorded wire) and by comparing the boundaries and bytes of "
-             "every conn.Write with the model, on generated handler programs aimed at the 64 KiB threshold. Partial: c09_decodes is not yet a theorem.",
-        note="Partial: only the Write-result clauses are theorems; framing/decoding is differential + oracle. Known finding D9 (HTTP/1.0 Flush before last Write). "
+        technique="Coq proof (stream invariant through every coalescing branch of the response writer, by induction over handler programs) + differential run of the extracted model; net/http as independent decoder oracle",
+        text="coq/httpresp: nbhttp/response.go (as repaired) as a state machine over handler operations. Theorems (C09.v) for every request context, every sequence of header operations and every body "
+             "program (Writes of any size, Flush anywhere, trailers set early or late): with chunked framing the wire is head ++ one `hex(len) CRLF data CRLF` chunk per non-empty Write in order ++ `0 CRLF` ++ trailer "
+             "block ++ CRLF and nothing stays buffered (c09_chunked_wire); with identity framing the wire is head ++ exactly the bytes of the accepted Writes in order (c09_identity_wire); every successful Write reports "
+             "len(data); a refused Write puts nothing on the wire. So the 64 KiB threshold logic only decides when bytes move, never which or in what order (the D7/D8 class). That `head` is a well-formed status line + header "
+             "block with the right framing headers, and the decoding of the chunk syntax, are decided on every run by the implementation-side oracle (net/http decodes the recorded wire to the handler's status, headers, "
+             "trailers, body) and the model correspondence (boundaries and bytes of every conn.Write) on generated programs aimed at the threshold.",
+        note="Partial in one respect: the content of `head` (Content-Length value, Transfer-Encoding) and chunk-syntax decoding are oracle-checked, not theorems; c09_http10_flush_refuted is the known finding D9 as a witness on the model. "
              "ReadFrom/Sendfile path not covered. Trusted: Coq kernel, extraction, OCaml driver, Go harness, net/http's client parser.",
         design="4/C09, Appendix C, O"),
     "C10": dict(
